@@ -191,7 +191,9 @@ def gct(chk, fx):
                 good = res == {"uninitialized16"} and all(l[-2:] == ("lex", "lexreport") for l in logs)
                 want = "the failure sentinel right after one 'Unexpected character' report"
             else:
-                good = all(r.endswith(".current_term_idx") for r in res) and \
+                # the value handed back is the pending term or, equivalently, the index in the lexer's own result (it is
+                # stored into the pending term on the same path: TRACE-R / TERMV look at that store)
+                good = all(r.endswith(".current_term_idx") or r.endswith(".term_idx") for r in res) and \
                     all(l and l[-1] == "lex" and "lexreport" not in l for l in logs)
                 want = "the term the lexer recognised, no report"
             desc = "recovery=%d pending-term=%d at-end=%d lexer-failure=%d" % (R, pending, at_end, lexfail)
